@@ -131,7 +131,8 @@ def sandboxLevel (rootNode : Option (Bool ⊕ Ents)) (first : Bool) : List Path 
   | [] => Ents.nil
   | [name] =>
     mkDir ([(if first then bs "top.txt" else bs "note.txt", Sum.inl false),
-      (name ++ bs "-other", Sum.inr siblingDir), (name ++ bs "x", Sum.inr siblingDir), (bs "other", Sum.inr siblingDir)] ++
+      (name ++ bs "-other", Sum.inr siblingDir), (name ++ bs "x", Sum.inr siblingDir), (bs "other", Sum.inr siblingDir),
+      (name ++ bs "-old", Sum.inr (mkDir [(bs "secret", Sum.inl true)]))] ++
       (match rootNode with | some n => [(name, n)] | none => []))
   | seg :: rest =>
     mkDir [(if first then bs "top.txt" else bs "note.txt", Sum.inl false), (seg, Sum.inr (sandboxLevel rootNode false rest))]
